@@ -81,6 +81,9 @@ impl Prop for Walks {
                 st.nontrivial(pos.fingerprint(), || pos_sample(pos, &labels));
             }
             st.count("nodes", 1);
+            if i >= 1 {
+                st.evaluations += 1; // every node of the walk is a comparison of its own
+            }
             if let Err(e) = compare_moves(&engine, &reference) {
                 return Err(fail_pos(
                     format!("after {} plies of engine apply(): legal moves differ: {}", i, e),
